@@ -122,7 +122,7 @@ def run(ctx):
         _verdict(run, "C18.R5", lf, "parser built with the URL of the "
                  "resource it parses", r, m)
     bp = m.cls(SP + ".BaseParser")
-    writers = [(meth.qualname, src(st)) for st, meth in
+    writers = [(m.owner(meth).qualname, src(st)) for st, meth in
                bp.fields.get("_url", [])]
     run.check(writers == [(SP + ".BaseParser.__init__", "self._url = url")],
               "C18.R5", bp.qualname, "writers of self._url",
